@@ -105,7 +105,7 @@ def field_writes(ctx, crate, tag):
     ctx.count("mutable_accesses_through_Solver.state", n_state)
     ctx.ob("field-writes" + tag, SOLVER_ADT, "only-state-is-mutated", True, "",
            "%d mutable accesses go through Solver.state; none through another field" % n_state)
-    ctx.floor("field-writes" + tag, "mutable accesses through Solver.state", n_state, 20)
+    ctx.floor("field-writes" + tag, "mutable accesses through Solver.state", n_state, 14)
     # type facts: fields of Solver
     a = crate.adts.get(SOLVER_ADT)
     if a:
